@@ -325,14 +325,14 @@ def gen(chk, tier):
     streams.append(("exhaustive-2x1", ex))
     # (b) every interleaving of 2 threads x 1-2 calls for a fixed set + a random sample of programs
     pl = list(FIXED_2X2)
-    for _ in range(30 if quick else 1200):
+    for _ in range(14 if quick else 1200):
         pl.append([rand_prog(rng, 2), rand_prog(rng, 2)])
     ex2 = []
-    for progs, (_, scheds) in zip(pl, enum_many(pl, "all", 9000 if quick else 200000)):
+    for progs, (_, scheds) in zip(pl, enum_many(pl, "all", 2500 if quick else 200000)):
         ex2 += ["c16 progs=%s sched=%s" % (prog_str(progs), s) for s in scheds]
     streams.append(("exhaustive-2x2", ex2))
     # (c) one schedule per (reachable model state, thread) edge incl. the disabled steps, 3 threads x <= 2 calls
-    pl = [[rand_prog(rng, 2), rand_prog(rng, 2), rand_prog(rng, 2)] for _ in range(12 if quick else 300)]
+    pl = [[rand_prog(rng, 2), rand_prog(rng, 2), rand_prog(rng, 2)] for _ in range(9 if quick else 300)]
     pl.append([["KP"], ["C"], ["Kn", "I"]])
     ed = []
     for progs, (n, scheds) in zip(pl, enum_many(pl, "edges", 4000 if quick else 60000)):
@@ -394,7 +394,7 @@ def gen_wait_forced(chk, tier):
         if has_wait_and_close(progs):
             pl.append(progs)
     ex2 = []
-    for progs, (_, scheds) in zip(pl, enum_many(pl, "all", 700 if quick else 200000)):
+    for progs, (_, scheds) in zip(pl, enum_many(pl, "all", 450 if quick else 200000)):
         ex2 += ["c16 progs=%s sched=%s" % (prog_str(progs), s) for s in scheds]
     streams.append(("exhaustive-2x2-wait", ex2))
     # (g) one schedule per (reachable model state, thread) edge, 3 threads
@@ -404,7 +404,7 @@ def gen_wait_forced(chk, tier):
         if has_wait_and_close(progs):
             pl.append(progs)
     ed = []
-    for progs, (n, scheds) in zip(pl, enum_many(pl, "edges", 700 if quick else 60000)):
+    for progs, (n, scheds) in zip(pl, enum_many(pl, "edges", 450 if quick else 60000)):
         ed += ["c16 progs=%s sched=%s" % (prog_str(progs), s) for s in scheds]
     streams.append(("state-edge-cover-3-wait", ed))
     # (h) for every reachable model state and every thread parked before the held mutex there: the path to the state,
